@@ -33,7 +33,7 @@ ASSUMPTIONS = [
     "lie between the smallest and largest per-step loss",
     "zero-sized reference dimension not enumerated (length-0 references are covered through eos)",
 ]
-BUDGET_S = {"quick": 240, "thorough": 2400}
+BUDGET_S = {"quick": 900, "thorough": 3000}
 
 
 def shards(tier, seed):
